@@ -4,6 +4,7 @@ exactly the persistent fields and one method per instance method with the bound 
 generating a stub changes neither schema nor configuration and writes nothing to standard output.
 """
 import ast
+import functools
 import hashlib
 import inspect
 import json
@@ -155,6 +156,51 @@ def _unusual_methods():
 
 UNUSUAL_METHODS = _unusual_methods()  # kept apart from METHODS: only used in the dedicated scenario section
 
+def _wrapped_methods():
+    """functools.wraps-decorated functions whose own signature differs from the wrapped function's: the instance method
+    that will be called is the wrapper"""
+    def base_function(cfg, a: int, b: str = "x") -> None:
+        return None
+
+    @functools.wraps(base_function)
+    def adds_param(cfg, a, b="x", extra=None):
+        return base_function(cfg, a, b)
+
+    @functools.wraps(base_function)
+    def removes_param(cfg, a):
+        return base_function(cfg, a)
+
+    @functools.wraps(base_function)
+    def adds_kwonly(cfg, a, b="x", *, verbose=False):
+        return base_function(cfg, a, b)
+
+    @functools.wraps(base_function)
+    def renames_params(cfg, first, second="x"):
+        return base_function(cfg, first, second)
+
+    @functools.wraps(base_function)
+    def passes_through(cfg, *args, **kwargs):
+        return base_function(cfg, *args, **kwargs)
+
+    @functools.wraps(base_function)
+    def same_signature(cfg, a, b="x"):
+        return base_function(cfg, a, b)
+
+    return {"wraps_" + n: f for n, f in [
+        ("adds_param", adds_param), ("removes_param", removes_param), ("adds_kwonly", adds_kwonly),
+        ("renames_params", renames_params), ("passes_through", passes_through), ("same_signature", same_signature)]}
+
+
+WRAPPED_METHODS = _wrapped_methods()  # registry name -> wrapper (its __name__ is the wrapped function's)
+
+
+def _method(name):
+    for table in (METHODS, UNUSUAL_METHODS, WRAPPED_METHODS):
+        if name in table:
+            return table[name]
+    raise KeyError(name)
+
+
 METHODS = {f.__name__[2:]: f for f in [
     m_noargs, m_positional, m_defaults, m_varargs, m_pos_varargs, m_kwonly, m_pos_kwonly, m_varargs_kwonly, m_varkw,
     m_everything, m_annotated, m_annotated_all_kinds, m_mixed_annotations, m_string_annotations,
@@ -164,7 +210,9 @@ TYPING_PARAM_METHODS = ("param_optional", "param_list", "kwonly_typing")
 
 
 def _method_class(name):
-    f = METHODS[name] if name in METHODS else UNUSUAL_METHODS[name]
+    f = _method(name)
+    if name in WRAPPED_METHODS:
+        return "wraps-decorated"
     ann = dict(f.__annotations__)
     parts = []
     if name in TYPING_PARAM_METHODS:
@@ -259,16 +307,16 @@ def _unusual_feature(desc):
     return None
 
 
-def _build(desc):
+def _build(desc, dynamic=False):
     """desc: {"fields": [[key, field kind], ...], "methods": [[key, method name], ...]} -> Schema"""
     import cincoconfig as cc
     table = _field_table()
     table.update(_unusual_field_table())
-    s = cc.Schema()
+    s = cc.Schema(dynamic=True) if dynamic else cc.Schema()
     for key, kind in desc["fields"]:
         setattr(s, key, table[kind]())
     for key, name in desc.get("methods", []):
-        cc.instance_method(s, key)(METHODS[name] if name in METHODS else UNUSUAL_METHODS[name])
+        cc.instance_method(s, key)(_method(name))
     return s
 
 
@@ -293,7 +341,8 @@ KIND_NAMES = {inspect.Parameter.POSITIONAL_ONLY: "positional-only", inspect.Para
 
 
 def _sig_of_function(func):
-    params = list(inspect.signature(func).parameters.values())[1:]  # minus the `config` parameter
+    # the function that is bound and called (a functools.wraps wrapper is NOT looked through), minus `config`
+    params = list(inspect.signature(func, follow_wrapped=False).parameters.values())[1:]
     return [(p.name, KIND_NAMES[p.kind]) for p in params]
 
 
@@ -319,26 +368,57 @@ def _schema_fingerprint(schema, seen=None):
     return (id(schema), schema._key, schema._dynamic, len(schema._validators), out)
 
 
-def _check(desc, target, class_name):
-    """-> list of (obligation, what, witness_key)"""
+def _fresh_view(schema):
+    """what a configuration created now from the schema looks like: its keys, extra fields, enumerated paths"""
+    import cincoconfig as cc
+    new = schema()
+    return (sorted(new._data), sorted(new._fields), [p for p, _s, _f in cc.get_all_fields(new)],
+            sorted(k for k, _v in new), sorted(schema._fields))
+
+
+def _check(desc, target, class_name, sharing=None):
+    """-> list of (obligation, what, witness_key).  sharing: None | {"dynamic": bool, "extras": bool}: the schema is
+    shared with other live configurations (two plain ones and a config-type instance; with `dynamic` the schema is
+    dynamic and one other configuration holds an undeclared key; with `extras` the subject configuration itself holds
+    two undeclared keys)"""
     import cincoconfig as cc
     from cincoconfig.stubs import generate_stub
     fails = []
-    schema = _build(desc)
+    dynamic = bool(sharing and sharing.get("dynamic"))
+    extras = bool(sharing and sharing.get("extras") and dynamic)
+    schema = _build(desc, dynamic=dynamic)
+    made_type = cc.make_type(schema, "MadeType")
     cfg = None
     if target == "schema":
         subject = schema
     elif target == "config":
         subject = cfg = schema()
     elif target == "configtype":
-        subject = cc.make_type(schema, "MadeType")
+        subject = made_type
     else:  # "configtype-instance"
-        subject = cfg = cc.make_type(schema, "MadeType")()
+        subject = cfg = made_type()
+    extra_keys = []
+    if extras and cfg is not None:
+        cfg.extra_one = 5
+        cfg.extra_two = {"a": [1]}
+        extra_keys = ["extra_one", "extra_two"]
+    others = []
+    if sharing is not None:
+        others = [schema(), schema(), made_type()]
+        if dynamic:
+            others[1].other_extra = [1, 2]
     want_name = class_name or "MadeType"
     has_ctype = any(k in CTYPE_KINDS for _key, k in desc["fields"])
     mclasses = sorted({_method_class(n) for _k, n in desc.get("methods", [])})
     input_class = _unusual_feature(desc) or "+".join((["config-type-field"] if has_ctype else []) +
                                                      [c for c in mclasses if "typing-generic" in c][:1]) or "plain"
+    if "wraps-decorated" in mclasses:
+        input_class = "wraps-decorated"
+    if sharing is not None:
+        input_class = "shared-schema:%s:%s" % (
+            "dynamic-config-with-extra-keys" if extra_keys else "dynamic" if dynamic else "static", target)
+    others_before = [snapshot(o) for o in others]
+    fresh_before = _fresh_view(schema) if sharing is not None else None
 
     fp_before = _schema_fingerprint(schema)
     snap_before = snapshot(cfg) if cfg is not None else None
@@ -361,6 +441,15 @@ def _check(desc, target, class_name):
         if snapshot(cfg) != snap_before or (tree_before is not None and repr(cfg.to_tree()) != tree_before):
             fails.append(("stubs:generate_stub/post:C20.config-unchanged",
                           "configuration changed while generating the stub", input_class))
+    if sharing is not None:
+        if [snapshot(o) for o in others] != others_before:
+            fails.append(("stubs:generate_stub/post:C20.other-configurations-unchanged",
+                          "another configuration of the same schema changed while generating the stub", input_class))
+        fresh_after = _fresh_view(schema)
+        if fresh_after != fresh_before:
+            fails.append(("stubs:generate_stub/post:C20.later-configurations-unaffected",
+                          "a configuration created from the schema after generate_stub has (keys, extra fields, paths, "
+                          "items, schema fields) %r, before it had %r" % (fresh_after, fresh_before), input_class))
     if raised is not None:
         fails.append(("stubs:generate_stub/raise:C20.total-on-schemas",
                       "generate_stub(%s, %r) raised %s: %s" % (target, class_name, type(raised).__name__, raised),
@@ -386,6 +475,8 @@ def _check(desc, target, class_name):
     cls = classes[0]
     attrs, persistent, methods = _expected(schema)
     got_attrs = [n.target.id for n in cls.body if isinstance(n, ast.AnnAssign) and isinstance(n.target, ast.Name)]
+    if extra_keys:  # whether undeclared keys of a dynamic configuration are listed is not fixed by the property
+        got_attrs = [a for a in got_attrs if a not in extra_keys or a in attrs]
     if sorted(got_attrs) != sorted(attrs):
         fails.append(("stubs:generate_stub/post:C20.annotated-attribute-per-field",
                       "annotated attributes %r, fields %r (missing %r, extra %r)"
@@ -401,7 +492,7 @@ def _check(desc, target, class_name):
                       "%d __init__ definitions" % len(inits), input_class))
     else:
         sig = _sig_of_def(inits[0])
-        names = [n for n, _k in sig[1:]]
+        names = [n for n, _k in sig[1:] if n not in extra_keys or n in persistent]
         if not sig or sig[0][1] != "positional" or sorted(names) != sorted(persistent) or \
                 any(k not in ("positional", "keyword-only") for _n, k in sig[1:]):
             fails.append(("stubs:generate_stub/post:C20.init-takes-persistent-fields",
@@ -409,6 +500,7 @@ def _check(desc, target, class_name):
     if sorted(defs) != sorted(methods) or any(len(v) != 1 for v in defs.values()):
         fails.append(("stubs:generate_stub/post:C20.one-method-per-instance-method",
                       "methods declared %r, instance methods %r" % (sorted(defs), sorted(methods)), input_class))
+    registry = dict((k, n) for k, n in desc.get("methods", []))
     for key, func in methods.items():
         if key not in defs:
             continue
@@ -417,7 +509,7 @@ def _check(desc, target, class_name):
         if not got or got[0][1] != "positional" or got[1:] != want:
             fails.append(("stubs:generate_stub/post:C20.method-signature",
                           "method %s declared with parameters %r, the bound function takes %r" % (key, got[1:], want),
-                          "signature:" + func.__name__[2:]))
+                          "signature:" + registry.get(key, func.__name__)))
     return fails
 
 
@@ -467,6 +559,29 @@ def _cases(tier):
             if "storage=" in k and not k.startswith("Field(") or name.startswith("generic"):
                 continue
             add({"fields": [["f", k]], "methods": [["meth", name]]}, tgts=("schema", "configtype-instance"))
+    # functools.wraps-decorated instance methods whose wrapper signature differs from the wrapped function's
+    for name in WRAPPED_METHODS:
+        add({"fields": [], "methods": [["meth", name]]})
+        add({"fields": [["a", "IntField"], ["v", "VirtualField"], ["sub", "Schema"]], "methods": [["meth", name]]},
+            tgts=("schema", "config"))
+        for other in ("everything", "annotated", "kwonly"):
+            add({"fields": [["n", "IntField"]], "methods": [["one", name], ["two", other]]}, tgts=("schema",))
+            add({"fields": [["n", "IntField"]], "methods": [["one", other], ["two", name]]}, tgts=("schema",))
+    # schema shared with other live configurations; dynamic schemas; dynamic configuration holding undeclared keys
+    shared_descs = [{"fields": [["f", k]]} for k in kinds] + [
+        {"fields": [["a", "IntField"], ["l", "ListField(IntField)"], ["sub", "Schema(nested 2)"], ["v", "VirtualField"]],
+         "methods": [["go", "everything"]]},
+        {"fields": [], "methods": [["go", "positional"]]},
+        {"fields": []},
+    ]
+    for d in shared_descs:
+        for sharing in ({"dynamic": False, "extras": False}, {"dynamic": True, "extras": False},
+                        {"dynamic": True, "extras": True}):
+            for t in targets:
+                if sharing["extras"] and t in ("schema", "configtype"):
+                    continue  # undeclared keys live in a configuration instance
+                cases.append({"fields": d["fields"], "methods": d.get("methods", []), "target": t, "class_name": "Stub",
+                              "sharing": sharing})
     # pairs of field kinds (order matters for the rendering)
     for a in kinds:
         for b in kinds:
@@ -500,7 +615,8 @@ def _random_case(rng):
 
 def replay(case):
     with sandbox():
-        fails = _check({"fields": case["fields"], "methods": case.get("methods", [])}, case["target"], case.get("class_name"))
+        fails = _check({"fields": case["fields"], "methods": case.get("methods", [])}, case["target"],
+                       case.get("class_name"), case.get("sharing"))
     want = case.get("obligation")
     hit = [f for f in fails if want is None or f[0] == want]
     return {"fails": bool(hit), "expected": "no failed clause" + (" (%s)" % want if want else ""),
@@ -519,7 +635,10 @@ def rac(tier="quick", seed=0):
               "function / nested in a class / with __qualname__ != __name__ (plain, list item, dict value), 23 + 12 signature "
               "shapes (the 12: such classes as parameter / return annotation, plain and inside typing generics; the 23: positional, defaults, *args, "
               "keyword-only, **kwargs, annotated by class / string / typing generic / user class, with/without return "
-              "annotation; singles x 4 targets, each kind in context, all kinds at once, all ordered pairs of kinds, every "
+              "annotation; 6 functools.wraps wrappers whose signature differs from the wrapped function (adds / removes / "
+              "renames a parameter, adds a keyword-only option, *args/**kwargs pass-through, same); shared schemas: 39 "
+              "schemas x {static, dynamic, dynamic configuration holding 2 undeclared keys} x 4 targets with 3 other live "
+              "configurations and a configuration created afterwards; singles x 4 targets, each kind in context, all kinds at once, all ordered pairs of kinds, every "
               "kind x every signature, all ordered pairs of signatures; + seeded random schemas (<= 6 fields, <= 3 methods, "
               "4 targets): quick 1500, thorough 150000 (or until the budget)",
         tier=tier, seed=seed)
@@ -536,9 +655,9 @@ def rac(tier="quick", seed=0):
             else:
                 break
             desc = {"fields": case["fields"], "methods": case["methods"]}
-            fails = _check(desc, case["target"], case["class_name"])
+            fails = _check(desc, case["target"], case["class_name"], case.get("sharing"))
             rec.case(key=hashlib.md5(json.dumps(case, sort_keys=True).encode()).hexdigest(),
-                     nontrivial=bool(case["fields"] or case["methods"]), sample=case if i % 557 == 40 else None)
+                     nontrivial=bool(case["fields"] or case["methods"] or case.get("sharing")), sample=case if i % 557 == 40 else None)
             for obligation, what, wk in fails:
                 rec.violation(obligation=obligation, what=what, replay=dict(case, obligation=obligation), witness_key=wk)
     return rec.result(exhaustive=False)
